@@ -46,8 +46,20 @@ impl SliceItems<Option<f64>> for tevec::export::polars::prelude::Float64Chunked 
     }
 }
 
-/// the accessors of one container against the logical sequence
+/// the accessors of one container against the logical sequence (a panic of an accessor is data)
 fn accessors<'a, T, V>(v: &'a V, logical: &[u64], contiguous: Option<bool>) -> Result<(), String>
+where
+    T: IsNone<Inner = f64> + Clone + 'a,
+    V: Vec1View<T> + ?Sized,
+    V::SliceOutput<'a>: SliceItems<T>,
+{
+    match catch(|| accessors_inner(v, logical, contiguous)) {
+        Ok(r) => r,
+        Err(p) => Err(format!("an accessor panicked: {p}")),
+    }
+}
+
+fn accessors_inner<'a, T, V>(v: &'a V, logical: &[u64], contiguous: Option<bool>) -> Result<(), String>
 where
     T: IsNone<Inner = f64> + Clone + 'a,
     V: Vec1View<T> + ?Sized,
@@ -488,7 +500,10 @@ fn polars_out(ca: &tevec::export::polars::prelude::Float64Chunked, vals: &Vec<f6
 }
 
 fn main() {
-    silence_panics();
+    guarded_main(run);
+}
+
+fn run() {
     let args = Args::from_env();
     match args.cmd() {
         "replay-cont" => replay(&args),
